@@ -101,20 +101,25 @@ Theorem C18_stack_strict :
     stack_group state add false init (g1 ++ f :: g2) = Err e.
 Proof. intros. eapply stack_skip_strict; eassumption. Qed.
 
-(** parse_and_stack, warn mode, end to end: let [p] select the files to keep.  If every image file
-    failing [p] is refused by (transactional) add_dcm when its turn comes, and none of them is the first
-    file of its group, the result equals the result for the path list without those files, with one
-    more warning per file. *)
+(** parse_and_stack, warn mode, end to end.  [p] selects the files to keep.  If every image file failing [p]
+    is refused by (transactional) add_dcm when its turn comes, a fresh stack holds no file, and every group
+    that starts with a dropped file consists of dropped files only (a group may lose ALL its files: it is then
+    absent from both results; a group that keeps a file keeps its first one, otherwise its key would change
+    to another representative), then the result is the result for the path list without those files: the same
+    (key, stack) pairs - the order of the returned dict is not part of the statement - and one more warning
+    per dropped file. *)
 Theorem C18_parse_and_stack_isolation :
-  forall (F state : Type) (add : state -> F -> state * option err) (p : F -> bool)
+  forall (F state : Type) (add : state -> F -> state * option err) (n_files : state -> nat) (p : F -> bool)
          (group_by : list str) (atol : Q) init (l : list (rd F)) gs w,
-    0 <= atol -> transactional add ->
+    0 <= atol -> transactional add -> n_files init = 0%nat ->
     parse_and_group group_by default_close_keys atol true l = Ok (gs, w) ->
-    (forall g f, In g gs -> hd_error (snd g) = Some f -> p f = true) ->
+    heads_closed p gs ->
     (forall g, In g gs -> refused_along p add init (snd g)) ->
-    parse_and_stack state add group_by atol true init l
-    = bump_warn (length l - length (drop_files p l))
-                (parse_and_stack state add group_by atol true init (drop_files p l)).
+    exists sts sts' w',
+      parse_and_stack state add n_files group_by atol true init l
+        = Ok (sts, (length l - length (drop_files p l) + w')%nat) /\
+      parse_and_stack state add n_files group_by atol true init (drop_files p l) = Ok (sts', w') /\
+      Permutation sts sts'.
 Proof. intros. eapply parse_and_stack_isolation; eassumption. Qed.
 
 (** The same two statements with [add] := the Stack model's add_dcm ([real_add st f] = the state after
@@ -127,13 +132,18 @@ Theorem C18_stack_real :
 Proof. exact stack_real. Qed.
 
 Theorem C18_parse_and_stack_isolation_real :
-  forall (p : Stack.Model.file -> bool) (group_by : list str) (atol : Q) init (l : list (rd Stack.Model.file)) gs w,
+  forall (p : Stack.Model.file -> bool) (group_by : list str) (atol : Q) (time_order vector_order : bool)
+         (l : list (rd Stack.Model.file)) gs w,
+    let init := Stack.Model.init time_order vector_order in
     0 <= atol ->
     parse_and_group group_by default_close_keys atol true l = Ok (gs, w) ->
-    (forall g f, In g gs -> hd_error (snd g) = Some f -> p f = true) ->
+    heads_closed p gs ->
     (forall g, In g gs -> refused_along p real_add init (snd g)) ->
-    parse_and_stack _ real_add group_by atol true init l
-    = bump_warn (length l - length (drop_files p l)) (parse_and_stack _ real_add group_by atol true init (drop_files p l)).
+    exists sts sts' w',
+      parse_and_stack _ real_add real_n_files group_by atol true init l
+        = Ok (sts, (length l - length (drop_files p l) + w')%nat) /\
+      parse_and_stack _ real_add real_n_files group_by atol true init (drop_files p l) = Ok (sts', w') /\
+      Permutation sts sts'.
 Proof. exact parse_and_stack_isolation_real. Qed.
 
 (* ------------------------------------------------------------------ non-vacuity *)
@@ -213,22 +223,26 @@ Example C18_stack_strict_ex :
   stack_group (list nat) toy_add false [] ([0; 2] ++ 3 :: [4])%nat = Err EIncongruent.
 Proof. vm_compute. reflexivity. Qed.
 
-(** file 1 joins the group opened by file 0 and is refused by the toy add: dropping it from the list
-    gives the same stacks (3 warnings instead of 4) *)
+(** the toy add refuses the odd files: file 1 joins the group opened by file 0, file 3 is the only file of its
+    group (the group disappears from the result).  Dropping both from the list gives the same stacks. *)
 Example C18_parse_and_stack_isolation_ex :
   exists gs w,
     parse_and_group default_group_keys default_close_keys group_atol true ex_l = Ok (gs, w) /\
-    (forall g f, In g gs -> hd_error (snd g) = Some f -> not1 f = true) /\
-    (forall g, In g gs -> refused_along not1 toy_add [] (snd g)) /\
-    (length ex_l - length (drop_files not1 ex_l) = 1)%nat /\
-    parse_and_stack_default (list nat) toy_add true [] ex_l
+    map snd gs = [[0; 1]; [4]; [3]]%nat /\
+    heads_closed Nat.even gs /\
+    (forall g, In g gs -> refused_along Nat.even toy_add [] (snd g)) /\
+    (length ex_l - length (drop_files Nat.even ex_l) = 2)%nat /\
+    parse_and_stack_default (list nat) toy_add (@length nat) true [] ex_l
     = Ok ([ ([GStr [49%N]; GInt 1; GStr [97%N]; GTup ax], [0%nat]);
-            ([GStr [49%N]; GInt 1; GStr [97%N]; GTup ax_far], [4%nat]);
-            ([GStr [49%N]; GInt 1; GStr [98%N]; GTup ax], []) ], 4%nat).
+            ([GStr [49%N]; GInt 1; GStr [97%N]; GTup ax_far], [4%nat]) ], 4%nat) /\
+    parse_and_stack_default (list nat) toy_add (@length nat) true [] (drop_files Nat.even ex_l)
+    = Ok ([ ([GStr [49%N]; GInt 1; GStr [97%N]; GTup ax], [0%nat]);
+            ([GStr [49%N]; GInt 1; GStr [97%N]; GTup ax_far], [4%nat]) ], 2%nat).
 Proof.
-  eexists. eexists. split; [vm_compute; reflexivity|]. split; [|split; [|split]].
-  - intros g f [<-|[<-|[<-|[]]]]; cbn [snd hd_error]; intros E; injection E as <-; reflexivity.
+  eexists. eexists. split; [vm_compute; reflexivity|]. split; [reflexivity|]. split; [|split; [|split; [|split]]].
+  - intros g f [<-|[<-|[<-|[]]]]; cbn [snd hd_error]; intros E; injection E as <-; intros E; try discriminate E; reflexivity.
   - intros g [<-|[<-|[<-|[]]]]; cbn; repeat split; eauto.
+  - vm_compute. reflexivity.
   - vm_compute. reflexivity.
   - vm_compute. reflexivity.
 Qed.
@@ -252,15 +266,16 @@ Qed.
 Example C18_parse_and_stack_isolation_real_ex :
   exists gs w,
     parse_and_group default_group_keys default_close_keys group_atol true real_l = Ok (gs, w) /\
-    (forall g f, In g gs -> hd_error (snd g) = Some f -> keep_real f = true) /\
+    map (fun g => map Stack.Model.f_id (snd g)) gs = [[0; 8; 1; 9]; [7]]%nat /\
+    heads_closed keep_real gs /\
     (forall g, In g gs -> refused_along keep_real real_add sinit (snd g)) /\
-    (length real_l - length (drop_files keep_real real_l) = 2)%nat /\
-    ids_of (parse_and_stack_default _ real_add true sinit real_l) = Ok ([[0; 1]]%nat, 3%nat) /\
-    ids_of (parse_and_stack_default _ real_add true sinit (drop_files keep_real real_l)) = Ok ([[0; 1]]%nat, 1%nat).
+    (length real_l - length (drop_files keep_real real_l) = 3)%nat /\
+    ids_of (parse_and_stack_default _ real_add real_n_files true sinit real_l) = Ok ([[0; 1]]%nat, 4%nat) /\
+    ids_of (parse_and_stack_default _ real_add real_n_files true sinit (drop_files keep_real real_l)) = Ok ([[0; 1]]%nat, 1%nat).
 Proof.
-  eexists. eexists. split; [vm_compute; reflexivity|]. split; [|split; [|split; [|split]]].
-  - intros g f [<-|[]]; cbn [snd hd_error]; intros E; injection E as <-; reflexivity.
-  - intros g [<-|[]]. vm_compute. repeat split; eauto.
+  eexists. eexists. split; [vm_compute; reflexivity|]. split; [reflexivity|]. split; [|split; [|split; [|split]]].
+  - intros g f [<-|[<-|[]]]; cbn [snd hd_error]; intros E; injection E as <-; intros E; try discriminate E; reflexivity.
+  - intros g [<-|[<-|[]]]; vm_compute; repeat split; eauto.
   - vm_compute. reflexivity.
   - vm_compute. reflexivity.
   - vm_compute. reflexivity.
